@@ -252,7 +252,18 @@ class Recorder:
         if len(present) > 2 and rng.random() < 0.4:
             pick = list(rng.choice(present, size=2, replace=False))
         form = int(rng.integers(0, 3))
-        arg = pick[0] if (len(pick) == 1 and form == 0) else (list(pick) if form < 2 else set(pick))
+        names = list(pick)
+        if form > 0 or len(pick) > 1:
+            # legal noise in a collection: a species that is not in the trajectory, a repeated name
+            r2 = rng.random()
+            absent = [x for x in ('Al', 'Cl', 'K') if x not in present]
+            if r2 < 0.3:
+                names = names + [absent[int(rng.integers(0, len(absent)))]]
+            elif r2 < 0.5:
+                names = names + [names[0]]
+            elif r2 < 0.65:
+                names = [absent[0]] + names + [absent[1]]
+        arg = pick[0] if (len(pick) == 1 and form == 0) else (list(names) if form < 2 else set(names))
         if mode == 'fixed':
             ref = [k for k, s in enumerate(syms) if s in pick]
             return {'fixed_species': arg}, ref
